@@ -960,6 +960,7 @@ def gen_message(rng, size="normal", want_opt=None, want_tsig=None, origin_mode=N
                                  "rdtype": rng.choice([1, 2, 6, 15, 28, 255, 251, 252, 65280]), "covers": 0, "deleting": None,
                                  "ttl": 0, "rdatas": []})
     counts = {"tiny": [0, 1], "normal": [0, 0, 1, 1, 2, 3, 5], "large": [4, 6, 9]}[size if size != "huge" else "normal"]
+    big_sec = rng.choice([1, 2])
     for sec in (1, 2, 3):
         for _ in range(rng.choice(counts)):
             c["sections"][sec].append(gen_rrset(rng, ng))
@@ -982,9 +983,15 @@ def gen_message(rng, size="normal", want_opt=None, want_tsig=None, origin_mode=N
                 sib = gen_rrset(rng, ng)
                 sib["name"] = base["name"]
                 c["sections"][sec].append(sib)
-        if size == "huge" and sec == rng.choice([1, 2]):
-            for _ in range(rng.range(15, 18)):
-                c["sections"][sec].append(gen_rrset(rng, ng, big=True))
+        if size == "huge" and sec == big_sec:
+            for bi in range(rng.range(15, 18)):
+                big = gen_rrset(rng, ng, big=True)
+                nm = [b"big%d" % bi] + [l for l in L(big["name"])]
+                if origin is not None and (not nm or nm[-1] != b""):
+                    pass  # relative to the origin
+                if wf_labels(absolute(nm, origin)):
+                    big["name"] = hexl(nm)
+                c["sections"][sec].append(big)
             for _ in range(3):
                 c["sections"][sec].append(gen_rrset(rng, ng))
     if want_opt if want_opt is not None else rng.chance(1, 2):
@@ -1311,13 +1318,15 @@ def replay(ctx: Ctx, obj: dict):
 LEVEL = {
     "text": "Lean 4 theorems over an executable model of dns/renderer.py, Rdataset.to_wire, Message.to_wire and _WireReader.read "
             "(opaque RDATA + explicit NS/CNAME/PTR/MX/SOA shapes): parse_render_partial — for every message with absolute names, any "
-            "opcode but UPDATE, with or without OPT (no TSIG/padding), any number of questions/record sets/records and any name-sharing "
-            "pattern, parsing the rendering returns the message (same id, flags, opcode, rcode incl. extended, EDNS state, record sets and "
-            "rdatas in order, no trailing octets) up to the ASCII case of compressed names; counts_exact — the header counts are the records "
+            "opcode but UPDATE, with or without OPT, with or without TSIG (no padding), any number of questions/record sets/records and any "
+            "name-sharing pattern, parsing the rendering returns the message (same id, flags, opcode, rcode incl. extended, EDNS state, TSIG, "
+            "record sets and rdatas in order, no trailing octets) up to the ASCII case of compressed names; update_forms — the same for "
+            "dynamic updates with their delete-rrset/delete-name/delete-rr and present/absent prerequisite forms through the ANY/NONE "
+            "classes, and the API's representation of those forms renders to the same octets as the parser's; counts_exact — the header counts are the records "
             "rendered (= section_count); compression_sound — in every rendering, with or without truncation, every compression-table entry "
             "(every possible pointer target) lies before the end of the buffer, at most at 0x3FFF, and decodes with the library's own "
             "strictly-backward-pointer decoder to its suffix up to case, and every name written decodes from its own offset to itself; "
-            "rcode/opcode header codecs are exact inverses (complete tables). Update forms, TSIG, padding, origins and byte-identical "
+            "rcode/opcode header codecs are exact inverses (complete tables). Padding, origins (relativisation) and byte-identical "
             "re-rendering are covered by the differential correspondence check (rendered octets, parsed messages, section counts, header "
             "codecs; model == implementation on every generated case) and by the direct oracle with an independent wire walker.",
     "note": "Trusted: Lean kernel + propext/Classical.choice/Quot.sound; the statements in lean/Props/C03.lean; the correspondence "
